@@ -707,6 +707,86 @@ func runC14(w *World, r *Report) {
 		return
 	}
 	ctorSeen := 0
+	isCtorFn := func(f *ssa.Function) bool {
+		if f == nil || fnPkg(f) != w.Parser {
+			return false
+		}
+		for _, g := range generators {
+			if f.Name() == g.Ctor {
+				return true
+			}
+		}
+		return false
+	}
+	// a type whose values are generators: it (or, for a type parameter, its constraint) has a Generate method
+	isGeneratorType := func(t types.Type) bool {
+		if t == nil {
+			return false
+		}
+		obj, _, _ := types.LookupFieldOrMethod(t, true, w.Parser.Pkg, "Generate")
+		_, isFn := obj.(*types.Func)
+		return isFn
+	}
+	// the signature of a generator constructor: from the model (only) to a generator
+	isCtorSig := func(t types.Type) bool {
+		sig, ok := t.Underlying().(*types.Signature)
+		if !ok || sig.Params().Len() != 1 || sig.Results().Len() != 1 {
+			return false
+		}
+		pt, ok := sig.Params().At(0).Type().(*types.Pointer)
+		return ok && typeIs(pt.Elem(), modPath+"/internal/model", "BinaryModel") && isGeneratorType(sig.Results().At(0).Type())
+	}
+	// a call through a function value (table member, captured or passed constructor) that yields a generator instance
+	yieldsGenerator := func(call *ssa.Call) bool {
+		if call.Call.IsInvoke() || call.Call.StaticCallee() != nil {
+			return false
+		}
+		if _, isB := call.Call.Value.(*ssa.Builtin); isB {
+			return false
+		}
+		return isCtorSig(call.Call.Value.Type())
+	}
+	// can running fn construct or drive a generator? (a closure that cannot - a bound method handed out as a lookup callback, say -
+	// is not a generator closure, whatever it captures)
+	var reachesGenerator func(fn *ssa.Function, depth int) bool
+	reachesGenerator = func(fn *ssa.Function, depth int) bool {
+		if fn == nil || fn.Blocks == nil {
+			return false
+		}
+		if depth > 4 {
+			return true
+		}
+		found := false
+		forEachInstr(fn, func(_ *ssa.BasicBlock, ins ssa.Instruction) {
+			c, ok := ins.(ssa.CallInstruction)
+			if !ok || found {
+				return
+			}
+			cc := c.Common()
+			switch {
+			case cc.IsInvoke():
+				found = cc.Method.Name() == "Generate"
+			case cc.StaticCallee() != nil:
+				f := cc.StaticCallee()
+				if fnPkg(f) == w.Parser {
+					found = true
+				} else if fnPkg(f) == w.Cmd || (f.Parent() != nil && fnPkg(f.Parent()) == w.Cmd) {
+					found = reachesGenerator(f, depth+1)
+				}
+			default:
+				if _, isB := cc.Value.(*ssa.Builtin); !isB {
+					found = true // a function value: may be anything
+				}
+			}
+		})
+		for _, an := range fn.AnonFuncs {
+			if !found {
+				found = reachesGenerator(an, depth+1)
+			}
+		}
+		return found
+	}
+	dynCtorCalls := 0
 	var scan func(fn *ssa.Function)
 	scan = func(fn *ssa.Function) {
 		forEachInstr(fn, func(b *ssa.BasicBlock, ins ssa.Instruction) {
@@ -719,11 +799,14 @@ func runC14(w *World, r *Report) {
 					}
 				}
 			}
-			if mc, ok := ins.(*ssa.MakeClosure); ok {
+			if mc, ok := ins.(*ssa.MakeClosure); ok && reachesGenerator(mc.Fn.(*ssa.Function), 0) {
 				for _, bnd := range mc.Bindings {
 					t := bnd.Type()
 					if p, ok := t.(*types.Pointer); ok {
 						t = p.Elem() // captured variables are passed by reference
+					}
+					if isCtorSig(t) {
+						continue // a constructor carried as a value holds no instance; if it is itself a closure it is judged on its own
 					}
 					if !typeIs(t, modPath+"/internal/model", "BinaryModel") {
 						r.fail(ruleDrv, fmt.Sprintf("%s closure captures %s", fnKey(fn), types.TypeString(t, nil)), w.instrPos(ins), "generator closures must capture only the parsed model")
@@ -735,19 +818,18 @@ func runC14(w *World, r *Report) {
 				return
 			}
 			f := call.Call.StaticCallee()
-			if f == nil || f.Pkg != w.Parser {
+			ctorName := ""
+			switch {
+			case isCtorFn(f):
+				ctorName = f.Name()
+				ctorSeen++
+			case yieldsGenerator(call):
+				// the instance is made here, by whichever constructor the function value holds
+				ctorName = "a generator through a constructor value"
+				dynCtorCalls++
+			default:
 				return
 			}
-			isCtor := false
-			for _, g := range generators {
-				if f.Name() == g.Ctor {
-					isCtor = true
-				}
-			}
-			if !isCtor {
-				return
-			}
-			ctorSeen++
 			escapes := false
 			for _, ref := range *call.Referrers() {
 				if c2, ok := ref.(ssa.CallInstruction); ok {
@@ -768,7 +850,16 @@ func runC14(w *World, r *Report) {
 						continue
 					}
 				}
-				if mi, ok := ref.(*ssa.MakeInterface); ok {
+				var mi ssa.Value
+				switch cv := ref.(type) {
+				case *ssa.MakeInterface:
+					mi = cv
+				case *ssa.ChangeType:
+					mi = cv // a type parameter's value converted to the interface
+				case *ssa.ChangeInterface:
+					mi = cv
+				}
+				if mi != nil {
 					// handed out as parser.Generator: fine when it is only returned (a fresh instance per call of the closure)
 					onlyReturned := true
 					for _, r2 := range *mi.Referrers() {
@@ -785,7 +876,7 @@ func runC14(w *World, r *Report) {
 				}
 				escapes = true
 			}
-			key := fmt.Sprintf("%s constructs %s", fnKey(fn), f.Name())
+			key := fmt.Sprintf("%s constructs %s", fnKey(fn), ctorName)
 			if escapes {
 				r.fail(ruleDrv, key, w.instrPos(ins), "generator instance flows somewhere other than its own Generate call: instance state (visited sets) may be shared")
 			} else {
@@ -814,6 +905,31 @@ func runC14(w *World, r *Report) {
 			scanned[fn] = true
 			scan(fn)
 		}
+	}
+	// constructors handed around as values (rows of a target table, arguments of an adapter) are constructions when something under
+	// Compile calls such a value
+	if dynCtorCalls > 0 {
+		valueCtors := map[string]bool{}
+		for _, fn := range w.srcFuncs {
+			if fn.Pkg != w.Cmd && (fn.Parent() == nil || fn.Parent().Pkg != w.Cmd) {
+				continue
+			}
+			forEachInstr(fn, func(_ *ssa.BasicBlock, ins ssa.Instruction) {
+				var callee ssa.Value
+				if c, ok := ins.(ssa.CallInstruction); ok && !c.Common().IsInvoke() {
+					callee = c.Common().Value
+				}
+				for _, op := range ins.Operands(nil) {
+					if op == nil || *op == nil || *op == callee {
+						continue
+					}
+					if f, ok := (*op).(*ssa.Function); ok && isCtorFn(f) {
+						valueCtors[f.Name()] = true
+					}
+				}
+			})
+		}
+		ctorSeen += len(valueCtors)
 	}
 	r.RuleCounts[ruleDrv] += 0
 	if ctorSeen < len(generators) {
